@@ -129,6 +129,18 @@ impl<'a> DsvCursor<'a> {
         core::str::from_utf8(self.current_field())
     }
 
+    /// Is the cursor at the end of a text whose last byte is a field delimiter
+    /// (outside quotes, not a newline)? Then an empty field starts here.
+    fn at_trailing_empty_field(&self) -> bool {
+        let len = self.text.len();
+        if len == 0 || self.position != len {
+            return false;
+        }
+        let is_marker = self.index.markers_rank1(len) > self.index.markers_rank1(len - 1);
+        let is_newline = self.index.newlines_rank1(len) > self.index.newlines_rank1(len - 1);
+        is_marker && !is_newline
+    }
+
     /// Check if the current byte is a newline marker.
     fn at_newline(&self) -> bool {
         if self.position == 0 || self.position > self.text.len() {
@@ -178,7 +190,7 @@ impl<'a> DsvRow<'a> {
             ..self.cursor
         };
 
-        for _ in 0..column {
+        for step in 0..column {
             // Check if we hit a newline before reaching the column
             let field = cursor.current_field();
             if field.is_empty() && cursor.at_end() {
@@ -186,6 +198,10 @@ impl<'a> DsvRow<'a> {
             }
 
             if !cursor.next_field() {
+                // The text ends with a delimiter: the row has one more (empty) field.
+                if step + 1 == column && cursor.at_trailing_empty_field() {
+                    return Some(&cursor.text[cursor.text.len()..]);
+                }
                 return None;
             }
 
@@ -280,6 +296,11 @@ impl<'a> Iterator for DsvFields<'a> {
         // Move to next field
         if !self.cursor.next_field() {
             self.finished = true;
+            // A text that ends with a delimiter (no final newline) still has an
+            // empty last field: "a," is ["a", ""], exactly like "a,\n".
+            if self.cursor.at_trailing_empty_field() {
+                return Some(&self.cursor.text[self.cursor.text.len()..]);
+            }
             return None;
         }
 
